@@ -179,6 +179,98 @@ def features(ir, c_code: str):
     return f.tags
 
 
+# ---------------------------------------------------------------------------------------------- precisions
+def _cfg_ctype(config, field):
+    t = config.lookup_type(field)
+    if isinstance(t, T.Bool):
+        return "bool"
+    if t.is_real_scalar():
+        return "float" if t == T.R else t.ctype()
+    return "int"
+
+
+def _literal_only(e):
+    if isinstance(e, LoopIR.Const):
+        return True
+    if isinstance(e, LoopIR.USub):
+        return _literal_only(e.arg)
+    if isinstance(e, LoopIR.BinOp):
+        return _literal_only(e.lhs) and _literal_only(e.rhs)
+    return False
+
+
+def precision_info(ir, cfg_ids):
+    """declared C type of every compared location, the coarsest float precision taking part in the program (callees
+    included) and the configuration fields that are only ever written with literals"""
+    floats, cfg, seen = set(), {}, set()
+
+    def ty(t):
+        if t.is_numeric():
+            ct = CM.ctype_of(t)
+            if ct in CM.TOL:
+                floats.add(ct)
+
+    def expr(e):
+        if isinstance(e, LoopIR.ReadConfig):
+            c = cfg.setdefault((e.config.name(), e.field), {"ctype": _cfg_ctype(e.config, e.field), "pinned": True})
+            if c["ctype"] in CM.TOL:
+                floats.add(c["ctype"])
+        elif isinstance(e, LoopIR.BinOp):
+            expr(e.lhs)
+            expr(e.rhs)
+        elif isinstance(e, LoopIR.USub):
+            expr(e.arg)
+        elif isinstance(e, LoopIR.Extern):
+            for a in e.args:
+                expr(a)
+        elif isinstance(e, LoopIR.Read):
+            for i in e.idx:
+                expr(i)
+
+    def stmts(ss):
+        for s in ss:
+            if isinstance(s, (LoopIR.Assign, LoopIR.Reduce)):
+                expr(s.rhs)
+            elif isinstance(s, LoopIR.WriteConfig):
+                c = cfg.setdefault((s.config.name(), s.field), {"ctype": _cfg_ctype(s.config, s.field), "pinned": True})
+                if not _literal_only(s.rhs):
+                    c["pinned"] = False
+                    if c["ctype"] in CM.TOL:
+                        floats.add(c["ctype"])
+                expr(s.rhs)
+            elif isinstance(s, LoopIR.If):
+                expr(s.cond)
+                stmts(s.body)
+                stmts(s.orelse)
+            elif isinstance(s, LoopIR.For):
+                stmts(s.body)
+            elif isinstance(s, LoopIR.Alloc):
+                ty(s.type)
+            elif isinstance(s, LoopIR.Call):
+                proc(s.f)
+
+    def proc(p):
+        if id(p) in seen:
+            return
+        seen.add(id(p))
+        for a in p.args:
+            ty(a.type)
+        stmts(p.body)
+
+    proc(ir)
+    floor = "double"
+    for ct in CM.COARSE:
+        if ct in floats:
+            floor = ct
+    bufs = [CM.ctype_of(a.type) if CM.ctype_of(a.type) in CM.TOL else "int" for a in ir.args if a.type.is_numeric()]
+    cfgp = {}
+    for key, cid in cfg_ids.items():
+        c = cfg.get(key)
+        if c is not None:
+            cfgp[cid] = (c["ctype"] if c["ctype"] in CM.TOL else "int", c["pinned"])
+    return {"bufs": bufs, "cfg": cfgp, "floor": floor}
+
+
 # ---------------------------------------------------------------------------------------------- one variant
 def exact_limit(tags):
     if "preci32" in tags:
@@ -234,6 +326,7 @@ class Unit:
         self.interp.define(ex)
         gen = export.InputGen(rng)
         descs, refs, skipped = [], [], {}
+        inexact_inputs = 0
         tries = 0
         want = self.opts["n_inputs"]
         while len(descs) < want and tries < want * 5:
@@ -259,14 +352,21 @@ class Unit:
                 skipped[k] = skipped.get(k, 0) + 1
                 continue
             m, dens_ok = CM.max_abs(o)
-            if m > exact_limit(tags) or not dens_ok:
-                skipped["inexact"] = skipped.get("inexact", 0) + 1
+            # values beyond the range of the integer types (overflow is undefined behaviour) or absurdly large are
+            # outside; everything else is compared, inexact values within the relative error of the declared precision
+            if m > (Fraction(1 << 30) if "preci32" in tags else Fraction(1 << 100)):
+                skipped["out-of-range"] = skipped.get("out-of-range", 0) + 1
                 continue
+            if not dens_ok or m > exact_limit(tags):
+                inexact_inputs += 1
             descs.append(d)
             refs.append(o)
         if not descs:
             self.log_result(status="no-valid-input", skipped=skipped, tags=sorted(tags), **base)
             return
+        if inexact_inputs:
+            tags.add("inexactvalues")
+        prec = precision_info(ir, ex.cfgs)
         strided = any(a["kind"] == "buf" and a["shape"] and a["strides"] != dense(a["shape"]) for d in descs for a in d["args"])
         if strided:
             tags.add("stridedinput")
@@ -311,7 +411,7 @@ class Unit:
                 if got is None:
                     why = ("crash", "the compiled program exits with status %s: %s" % (rc, out[-300:]))
                 else:
-                    why = CM.compare(ref, got, buf_kinds)
+                    why = CM.compare(ref, got, buf_kinds, prec)
                 if why is not None and why[0] not in ("harness",) and got is not None and "float" in c_code:
                     # float rounding is outside the property: a mismatch that disappears in double arithmetic is not counted
                     exe2 = exe + "_dbl"
@@ -319,7 +419,7 @@ class Unit:
                     if rc2 == 0:
                         rc3, out3 = CM.run_exe(exe2, k)
                         got3 = CM.parse_run(out3) if rc3 == 0 else None
-                        if got3 is not None and CM.compare(ref, got3, buf_kinds) is None:
+                        if got3 is not None and CM.compare(ref, got3, buf_kinds, prec) is None:
                             self.log_result(status="inexact-float", tags=sorted(tags), **base)
                             continue
                 if why is not None:
@@ -406,7 +506,7 @@ def run_unit(args):
                 "results": []}
 
 
-def run_units(jobs, workers=12, deadline=None, grace=300):
+def run_units(jobs, workers=12, deadline=None, grace=300, hard_after=None):
     """jobs: list of (uid, seed, opts); returns unit results in uid order (deterministic reporting).  After the deadline
     units that have not started are dropped (they return at once: Unit.past_deadline); running ones are awaited for at
     most `grace` seconds, then the workers are killed (a hung solver or interpreter must not hang the check)."""
@@ -417,7 +517,7 @@ def run_units(jobs, workers=12, deadline=None, grace=300):
     futs = {pool.submit(run_unit, j): j[0] for j in jobs}
     pending = set(futs)
     cancelled = False
-    hard = None if deadline is None else deadline + grace
+    hard = (None if hard_after is None else time.time() + hard_after) if deadline is None else deadline + grace
     while pending:
         done, pending = wait(pending, timeout=5, return_when=FIRST_COMPLETED)
         for f in done:
@@ -720,6 +820,29 @@ def foo(z: R[4], u: R[4]):
     z[0] += t + t_1
 
 foo = inline(foo, "sub(_, _)")
+''',
+    # literals written to configuration fields of other precisions than the default: the context struct must hold the
+    # field-precision value (double 0.1, the i32 2**24 + 1), not the f32 rounding of the literal
+    "config_precision_literals": '''
+@config
+class CfgP:
+    scale: f64
+    count: i32
+    big: i32
+    gain: f32
+    tiny: f64
+
+@proc
+def foo(n: size, x: f64[n], y: f64[n], cnt: i32[2]):
+    CfgP.scale = 0.1
+    CfgP.count = 16777217
+    CfgP.big = 33554433
+    CfgP.gain = 0.5
+    CfgP.tiny = 0.001
+    for i in seq(0, n):
+        y[i] = x[i] * CfgP.scale + CfgP.tiny
+    cnt[0] = CfgP.count
+    cnt[1] = CfgP.big
 ''',
     "instr_calls": '''
 @instr("for (int q_ = 0; q_ < {n}; q_++) (&{dst_data})[q_ * {dst}.strides[0]] += 2.0f * {src}.data[({n} - 1 - q_) * {src}.strides[0]];")
